@@ -52,6 +52,12 @@ def main():
     elif beh == 'garbage':
         out = 'this is { not json\n'
         code = b.get('code', 0)
+    elif beh == 'trailing':
+        # a well-formed first JSON value followed by more output (a second array, a crash message)
+        first = json.dumps([{'file': '-', 'line': 1, 'endLine': 1, 'column': 1, 'endColumn': 2, 'level': 'warning', 'code': 2086,
+                             'message': 'first value.', 'fix': None}])
+        out = first + '\n' + '[]\nshellcheck: internal error\n'
+        code = b.get('code', 0)
     elif beh == 'unterminated':
         out = "<stdin>:1:1: message without line end"
         code = 1
